@@ -446,6 +446,51 @@ func s5() {
 	}
 }
 
+// S14: a handler table that grew beyond its preallocated slots, PARTLY
+// emptied, then shut down. n handlers (11..14) are registered, the first k of
+// them removed (every k from 0 to n), then the endpoint is closed locally or
+// by the peer: every handler still registered is closed exactly once, the
+// removed ones were closed by their removal, removal of each identifier a
+// second time is an error.
+func s14() {
+	a, b := vnet.NewPair("ep", "peer")
+	ep := net.NewEndPoint(a)
+	n := 11 + vrt.ChooseFree(4, "handlers registered")
+	k := vrt.ChooseFree(n+1, "handlers removed first")
+	how := vrt.ChooseFree(2, "shutdown: Close / peer close")
+	vrt.Explore()
+	var ms []*mon
+	for i := 0; i < n; i++ {
+		ms = append(ms, register(ep, fmt.Sprintf("h%d", i), matchNone, true))
+	}
+	for i := 0; i < k; i++ {
+		if err := ep.RemoveHandler(ms[i].id); err != nil {
+			vrt.Failf("remove-error", "removing the registered handler %s (%d of %d registered) failed: %v", ms[i].name, i, n, err)
+		}
+	}
+	vrt.Quiesce()
+	for i := 0; i < k; i++ {
+		if ms[i].closerCalls != 1 {
+			vrt.Failf(fmt.Sprintf("closer-count-after-removal/%d", ms[i].closerCalls), "%s was removed: its close callback ran %d times", ms[i].name, ms[i].closerCalls)
+		}
+	}
+	if how == 0 {
+		ep.Close()
+	} else {
+		b.Close()
+	}
+	vrt.Quiesce()
+	for _, m := range ms {
+		m.check()
+	}
+	for i := 0; i < k; i++ {
+		if ep.RemoveHandler(ms[i].id) == nil {
+			vrt.Failf("double-remove-accepted", "removing %s a second time (after the shutdown) succeeded", ms[i].name)
+		}
+	}
+	vrt.Observe("n=%d k=%d how=%d", n, k, how)
+}
+
 // S6: ReceiveAny || incoming frame || Close.
 func s6() {
 	a, b := vnet.NewPair("ep", "peer")
@@ -928,6 +973,7 @@ func init() {
 	add("s3c-peerclose-mid-payload", s3(30), 2, 4, "peer closes mid-payload || RemoveHandler || MakeHandler")
 	add("s4-double-remove", s4, 3, 99, "two concurrent RemoveHandler(h), then unknown ids")
 	add("s5-id-reuse", s5, 2, 99, "RemoveHandler || MakeHandler x2 on a full table", "id-reused")
+	add("s14-grown-table-partly-emptied-then-shutdown", s14, 0, 1, "11..14 handlers registered, the first k removed (every k), then Close / peer close: every handler still registered is closed exactly once")
 	add("s7a-full-queue-call-remove", s7(false), 2, 5, "self-removing filter with a full queue gets a Call (error reply on the wire) || RemoveHandler", "consumer-blocked-answered")
 	add("s7b-full-queue-call-remove-close", s7(true), 2, 4, "same || Close()", "consumer-blocked-answered")
 	add("s7c-blocked-reply-then-close", s7c, 1, 3, "a Call for a full queue is answered on a synchronous pipe nobody reads; then Close()")
